@@ -192,6 +192,20 @@ func normalize(t *Term) *Term {
 				}
 			}
 		}
+		// an address or a fresh allocation is never nil
+		if t.Name == "==" || t.Name == "!=" {
+			for i := 0; i < 2; i++ {
+				if t.Args[i].IsConst("nil") {
+					switch StripConv(t.Args[1-i]).Op {
+					case OpAddr, OpNew, OpAddrG:
+						if t.Name == "!=" {
+							return C("true")
+						}
+						return C("false")
+					}
+				}
+			}
+		}
 		// comparison of two integer literals
 		if _, isCmp := negCmp[t.Name]; isCmp {
 			if x, ok := constInt(a); ok {
